@@ -57,7 +57,64 @@ def sources(tier, sd):
                 pass
     for c in corpus.programs():
         out.append({"src": "corpus:" + c["src"], "text": c["text"]})
+    # every statement form at least once
+    import tour
+    for i, t in enumerate(tour.TOUR):
+        out.append({"src": "tour:%d" % i, "text": t})
+    # loops written on ONE line with colons (several constructs of the same kind start on the same row)
+    import copy
+    n = 0
+    for c in c01.cases("quick", sd):
+        if c["fam"].startswith(("nest", "for:", "random")):
+            p = copy.deepcopy(c["prog"])
+            if mark_colon_prog(p):
+                try:
+                    out.append({"src": "colon:" + c["fam"], "text": render.program(p)[0], "prog": p})
+                    n += 1
+                except render.RenderError:
+                    pass
+            if n >= (2000 if tier == "thorough" else 150):
+                break
     return out
+
+
+LOOPS = ("for", "while", "do")
+
+
+def colonable(s):
+    return s["k"] in ("let", "print", "read") or (s["k"] in LOOPS and all(colonable(x) for x in s["body"]))
+
+
+def mark_colon(stmts):
+    """marks every loop whose whole body can be joined with colons; returns how many were marked"""
+    n = 0
+    for s in stmts:
+        if s["k"] in LOOPS and s["body"] and all(colonable(x) for x in s["body"]):
+            def mark(x):
+                if x["k"] in LOOPS:
+                    x["colon"] = True
+                    for y in x["body"]:
+                        mark(y)
+            mark(s)
+            n += 1
+        elif s["k"] in LOOPS:
+            n += mark_colon(s["body"])
+        elif s["k"] == "if":
+            for a in s["arms"]:
+                n += mark_colon(a["body"])
+            n += mark_colon(s.get("els", []))
+        elif s["k"] == "select":
+            for a in s["cases"]:
+                n += mark_colon(a["body"])
+            n += mark_colon(s.get("els", []))
+    return n
+
+
+def mark_colon_prog(p):
+    n = mark_colon(p["main"])
+    for sp in p.get("subs", []):
+        n += mark_colon(sp["body"])
+    return n
 
 
 def run(tier, replay):
@@ -70,7 +127,12 @@ def run(tier, replay):
     else:
         srcs = sources(tier, seed())
     # 1. export the real instruction lists (accepted programs only)
-    resps = pool.map([{"op": "run", "text": s["text"], "igen": True, "trace": True, "budget": 4000, "stdin": "1\r\n2\r\n"} for s in srcs], timeout=60)
+    import shutil
+    fsroot = os.path.join(d, "fs")
+    shutil.rmtree(fsroot, ignore_errors=True)
+    resps = pool.map([{"op": "run", "text": s["text"], "igen": True, "trace": True, "budget": 4000, "stdin": "1\r\n2\r\n",
+                       "dir": os.path.join(fsroot, "c%d" % i)} for i, s in enumerate(srcs)], timeout=60)
+    shutil.rmtree(fsroot, ignore_errors=True)
     progs, dyn, deltas = [], [], {}
     rid = 0
     nacc = 0
